@@ -63,6 +63,10 @@ def replay(pid, mod, path):
         mod.run(ctx, n)
         if not ctx.failures:
             mod.search(ctx, max(n, 5000))
+        known = [fl for fl in ctx.failures if ctx.match_known(fl) is not None]
+        ctx.failures = [fl for fl in ctx.failures if ctx.match_known(fl) is None]
+        for fl in known[:3]:
+            print('(known finding, not part of the replay: %s)' % fl['what'][:120])
         same = [fl for fl in ctx.failures if fl['what'] == rp.get('what')]
         for fl in (same or ctx.failures)[:5]:
             print('REPRODUCED: %s' % fl['what'])
